@@ -275,7 +275,64 @@ func driveKvReaders(opt *Options) error {
 	}
 	wg.Wait()
 	tw.Emit(map[string]any{"op": "Readers", "reads": reads})
-	return driveKvFresh(tw)
+	if err := driveKvFresh(tw); err != nil {
+		return err
+	}
+	return driveKvOverDead(tw)
+}
+
+// driveKvOverDead: a record that has run out but was not looked at yet (written already expired) is read and
+// overwritten AT THE SAME INSTANT, hundreds of thousands of times: the write succeeded, so whatever the read did about the
+// dead record, the next Get finds what was written (a successful write is never lost; KvLinTrace's rule, here as a count).
+func driveKvOverDead(tw *TraceWriter) error {
+	st := inmem.New()
+	ctx := context.Background()
+	past := time.Now().Add(-time.Hour)
+	rounds := 300000
+	lost, werrs := 0, 0
+	var phase int64 // spin barrier: the two parties leave it within nanoseconds of each other
+	type req struct{ k string }
+	reads := make(chan req)
+	done := make(chan struct{})
+	go func() {
+		i := 0
+		for r := range reads {
+			for atomic.LoadInt64(&phase) == 0 {
+			}
+			if i%2 == 0 {
+				st.Get(ctx, r.k)
+			} else {
+				st.GetMany(ctx, r.k, "od/none")
+			}
+			i++
+			done <- struct{}{}
+		}
+	}()
+	t0 := time.Now()
+	n := 0
+	for ; n < rounds && time.Since(t0) < 20*time.Second; n++ {
+		k := fmt.Sprintf("od/%d", n%64)
+		if _, err := st.Put(ctx, kvs.Record{Key: k, Value: []byte("dead"), ExpiresAt: &past}); err != nil {
+			werrs++
+			continue
+		}
+		atomic.StoreInt64(&phase, 0)
+		reads <- req{k}
+		atomic.StoreInt64(&phase, 1)
+		w, err := st.Put(ctx, kvs.Record{Key: k, Value: []byte("fresh")})
+		<-done
+		if err != nil {
+			werrs++
+			continue
+		}
+		g, err := st.Get(ctx, k)
+		if err != nil || g.Version != w.Version {
+			lost++
+		}
+	}
+	close(reads)
+	tw.Emit(map[string]any{"op": "OverDead", "rounds": n, "lost": lost, "errs": werrs})
+	return nil
 }
 
 // driveKvFresh: sixteen goroutines write at once; every version that comes back must be different from every other
